@@ -3,9 +3,12 @@ CONSTANTS
   Conns = {1}
   Kinds = {"in"}
   Obfs = {FALSE}
+  SlowListener = TRUE
   GuardAcceptFinish = FALSE
   CloseOnCancel = TRUE
   AbortConnectOnClose = TRUE
+  ConnectingReportGuarded = TRUE
+  ClosingReportGuarded = TRUE
   MaxLives = 2
   MaxCalls = 2
   MaxMsgs = 1
